@@ -6,7 +6,15 @@ from .core import hexs, VERIF
 
 def load_structs():
     with open(os.path.join(VERIF, "coq", "gen", "structs.json"), encoding="utf-8") as f:
-        return json.load(f)
+        js = json.load(f)
+    # apt-sources Signature: the expectations depend on which FromStr the tree has (translator flag)
+    if js.get("flags", {}).get("sig_keyblock") == "strip":
+        EXT_POOL["Signature"] = SIGNATURE_STRIP
+        EXT_NEXT.pop("Signature", None)
+    else:
+        EXT_POOL["Signature"] = SIGNATURE_KEEP
+        EXT_NEXT["Signature"] = lambda s: "\n" + s if "\n" in s else s
+    return js
 
 # ---------------------------------------------------------------------------------------------
 # External codecs: (text, canonical text or None when the parser rejects it).  The model's
@@ -25,12 +33,7 @@ EXT_POOL = {
     "MultiArch": [("same", "same"), ("foreign", "foreign"), ("no", "no"), ("allowed", "allowed"), ("yes", None), ("", None)],
     "License": [("GPL-3+", "GPL-3+"), ("", ""), ("GPL-3+\ntext line\n more", "GPL-3+\ntext line\n more"),
                 ("\njust text", "\njust text"), ("MIT\n", "MIT\n")],
-    "Signature": [("/usr/share/keyrings/debian.gpg", "/usr/share/keyrings/debian.gpg"), ("", ""),
-                  ("\n-----BEGIN PGP PUBLIC KEY BLOCK-----\n.\nabc\n-----END PGP PUBLIC KEY BLOCK-----",
-                   "\n\n-----BEGIN PGP PUBLIC KEY BLOCK-----\n.\nabc\n-----END PGP PUBLIC KEY BLOCK-----"),
-                  # Display writes "\n" + text for a key block and FromStr keeps the whole text: one more LF per round
-                  ("\n\n-----BEGIN PGP PUBLIC KEY BLOCK-----\n.\nabc\n-----END PGP PUBLIC KEY BLOCK-----",
-                   "\n\n\n-----BEGIN PGP PUBLIC KEY BLOCK-----\n.\nabc\n-----END PGP PUBLIC KEY BLOCK-----")],
+    "Signature": [],   # filled in by load_structs
     "YesNoForce": [("yes", "yes"), ("no", "no"), ("force", "force"), ("Force", None), ("", None)],
     "Forwarded": [("no", "no"), ("not-needed", "not-needed"), ("https://bugs.example/1", "https://bugs.example/1"), ("", "")],
     "AppliedUpstream": [("commit:abc123", "commit:abc123"), ("2.0", "2.0"), ("", ""), ("commit:", "commit:")],
@@ -54,8 +57,14 @@ EXT_POOL = {
 }
 
 # what the canonical text itself parses-and-prints to, where that is not the text again
-# (apt-sources Signature: Display writes "\n" + block, FromStr keeps everything: one more LF per round)
-EXT_NEXT = {"Signature": lambda s: "\n" + s if "\n" in s else s}
+# (apt-sources Signature before the proposed fix: Display writes "\n" + block, FromStr keeps everything:
+# one more LF per round)
+EXT_NEXT = {}
+KEYBLOCK = "-----BEGIN PGP PUBLIC KEY BLOCK-----\n.\nabc\n-----END PGP PUBLIC KEY BLOCK-----"
+SIGNATURE_KEEP = [("/usr/share/keyrings/debian.gpg", "/usr/share/keyrings/debian.gpg"), ("", ""),
+                  ("\n" + KEYBLOCK, "\n\n" + KEYBLOCK), ("\n\n" + KEYBLOCK, "\n\n\n" + KEYBLOCK), ("a\nb", "\na\nb")]
+SIGNATURE_STRIP = [("/usr/share/keyrings/debian.gpg", "/usr/share/keyrings/debian.gpg"), ("", ""),
+                   ("\n" + KEYBLOCK, "\n" + KEYBLOCK), ("\n\n" + KEYBLOCK, "\n\n" + KEYBLOCK), ("a\nb", "\na\nb"), ("\nx", "\nx")]
 
 # ---------------------------------------------------------------------------------------------
 # values of the modelled codecs: (text, accepted?)
